@@ -20,7 +20,7 @@ func init() { registry["C07"] = propC07 }
 func propC07() *Property {
 	return &Property{
 		ID:          "C07",
-		Explanation: "Dispatcher coverage and crash obligations of the UI only. Decided: (R1) the keys documented in readme.md and in main's help text agree with each other, each is handled by ui.State.Update, and each case calls what the keymap names (j→MoveDown, k→MoveUp, g→MoveToCenter, h→Back, l→Forward, space/c/r/a→switchTo, o/p/b→openExternally; digits, ':', '.', Enter, Esc, Backspace are tested); (R2) every explicit panic in ui, feed, history and ansi that is reachable from Update / SetWidthHeight / Subcommand is discharged: the constants stored to State.mode are handled by view, ReplaceLastLine only receives text that went through ansi.SetLength, feed.Get is called only under Contains of the same offset on the same feed, switchTo only receives values whose dynamic type it handles — and no other panic exists there (a panic guarded by the outcome of parsing typed text has no static discharge); (R3) the results of the unguarded accessor feed.Current() are checked against nil before they are used as a receiver or handed to switchTo; (R4) Update returns before touching any state while the mode is loading. (R6) every value added to the history is a Page allocated by the adding function, through every phi edge: entries never share a page. (R7) every background load is delivered to the page it was started for (in-flight flag pairing; the instances of C08.R9). NOT decided: that after an arbitrary key history cursor, page and mode equal the keymap's prediction (refinement over unbounded histories), quiescence of background loads, and History.Current on an empty history (holds by an invariant relating mode and history length that is not structural).",
+		Explanation: "Dispatcher coverage and crash obligations of the UI only. Decided: (R1) the keys documented in readme.md and in main's help text agree with each other, each is handled by ui.State.Update, and each case calls what the keymap names (j→MoveDown, k→MoveUp, g→MoveToCenter, h→Back, l→Forward, space/c/r/a→switchTo, o/p/b→openExternally; digits, ':', '.', Enter, Esc, Backspace are tested); (R2) every explicit panic in ui, feed, history and ansi that is reachable from Update / SetWidthHeight / Subcommand is discharged: the constants stored to State.mode are handled by view, ReplaceLastLine only receives text that went through ansi.SetLength, feed.Get is called only under Contains of the same offset on the same feed, switchTo only receives values whose dynamic type it handles — and no other panic exists there (a panic guarded by the outcome of parsing typed text has no static discharge); (R3) the results of the unguarded accessor feed.Current() are checked against nil before they are used as a receiver or handed to switchTo; (R4) Update returns before touching any state while the mode is loading. (R6) every value added to the history is a Page allocated by the adding function, through every phi edge: entries never share a page. (R7) every background load is delivered to the page it was started for (in-flight flag pairing; the instances of C08.R9). (R8 = C12.R7) a link list that is stored next to an error is empty whenever the error may be set, so a number typed by the user cannot select a link that was shown without a number. NOT decided: that after an arbitrary key history cursor, page and mode equal the keymap's prediction (refinement over unbounded histories), quiescence of background loads, and History.Current on an empty history (holds by an invariant relating mode and history length that is not structural).",
 		Assumptions: []string{"readme.md 'Keybindings' and main.help() are the documented keymap"},
 		Rules: []Rule{
 			{ID: "C07.R1", Title: "documented keys have the documented handlers", Floor: 12, Run: c07R1},
@@ -30,6 +30,7 @@ func propC07() *Property {
 			{ID: "C07.R5", Title: "Backspace removes what one key press appended (a rune)", Floor: 2, Run: c07R5},
 			{ID: "C07.R6", Title: "every history entry is a page of its own", Floor: 1, Run: c07R6},
 			{ID: "C07.R7", Title: "a background load is delivered to the page it was started for (in-flight flag pairing; same instances as C08.R9)", Floor: 8, Run: c08R9},
+			{ID: "C07.R8", Title: "a number typed by the user can only select a link that was shown with it: a link list that comes with an error is empty (same instances as C12.R7)", Floor: 3, Run: c12R7},
 		},
 	}
 }
